@@ -35,7 +35,43 @@ def _model_dict(m):
 
 
 def discharge(vc, timeout_ms=10000, use_cvc5=True, keep_model=True):
+    split = vc.meta.get("split") if vc.meta else None
+    if split is not None:
+        # case split requested by the contract: every case and the complement must be discharged
+        st, vals = split
+        t0 = time.time()
+        cases = [st == v for v in vals] + [z3.Not(z3.Or(*[st == v for v in vals]))]
+        worst = None
+        for c in cases:
+            sub = type(vc)(vc.name, list(vc.pc) + [c], vc.goal, {k: v for k, v in vc.meta.items() if k != "split"})
+            v = discharge(sub, timeout_ms, use_cvc5, keep_model)
+            if v.status == "refuted":
+                v.secs = time.time() - t0
+                return v
+            if v.status == "unknown":
+                worst = v
+        if worst is not None:
+            worst.secs = time.time() - t0
+            return worst
+        v.secs = time.time() - t0
+        return v
     t0 = time.time()
+    # staged relevance filtering: dropping hypotheses is sound for `unsat`; only the full set may answer `sat`
+    if len(vc.pc) > 6:
+        for hops in (0, 1, 2):
+            sub = _relevant(vc.pc, vc.goal, hops)
+            if len(sub) >= len(vc.pc):
+                break
+            s0 = z3.Solver()
+            s0.set("timeout", max(1000, timeout_ms // 2))
+            for c in sub:
+                s0.add(c)
+            s0.add(z3.Not(vc.goal))
+            try:
+                if s0.check() == z3.unsat:
+                    return Verdict(vc.name, "proved", "z3", time.time() - t0, meta=vc.meta, smt_size=len(s0.sexpr()))
+            except z3.Z3Exception:
+                pass
     s = z3.Solver()
     s.set("timeout", timeout_ms)
     for c in vc.pc:
@@ -59,6 +95,71 @@ def discharge(vc, timeout_ms=10000, use_cvc5=True, keep_model=True):
             v.secs = time.time() - t0
             return v
     return Verdict(vc.name, "unknown", "z3", time.time() - t0, reason=reason, meta=vc.meta)
+
+
+_sym_cache = {}
+
+
+def _has_quant(e):
+    seen = set()
+    stack = [e]
+    while stack:
+        x = stack.pop()
+        if x.get_id() in seen:
+            continue
+        seen.add(x.get_id())
+        if z3.is_quantifier(x):
+            return True
+        if z3.is_app(x):
+            stack.extend(x.children())
+    return False
+
+
+def _symbols(e):
+    key = e.get_id()
+    if key in _sym_cache:
+        return _sym_cache[key]
+    out = set()
+    seen = set()
+    stack = [e]
+    while stack:
+        x = stack.pop()
+        i = x.get_id()
+        if i in seen:
+            continue
+        seen.add(i)
+        if z3.is_app(x):
+            d = x.decl()
+            if d.kind() == z3.Z3_OP_UNINTERPRETED:
+                out.add(d.name() if d.arity() == 0 else "fn:" + d.name())
+            stack.extend(x.children())
+        elif z3.is_quantifier(x):
+            stack.append(x.body())
+    _sym_cache[key] = out
+    return out
+
+
+def _relevant(pc, goal, hops):
+    syms = set(_symbols(goal))
+    hs = [_symbols(c) for c in pc]
+    if hops == 0:  # only hypotheses that speak exclusively about the goal's symbols
+        return [c for c, h in zip(pc, hs) if h <= syms]
+    keep = [False] * len(pc)
+    quant = [_has_quant(c) for c in pc]
+    for _ in range(hops):
+        new = set()
+        for i, h in enumerate(hs):
+            shared = h & syms
+            if quant[i]:  # quantified axioms only when they share a function symbol
+                shared = {x for x in shared if x.startswith("fn:")}
+            if not keep[i] and shared:
+                keep[i] = True
+                new |= h
+        if not new - syms:
+            break
+        syms |= new
+    # hypotheses without any uninterpreted symbol (pure constants) are kept
+    return [c for i, c in enumerate(pc) if keep[i] or not hs[i]]
 
 
 def _cvc5(vc, solver, tlimit_s):
